@@ -22,7 +22,10 @@ def read(data, **kw):
 
 # repaired in /repo (efe7e45, c8ef5ea, f1984b1): these cases now ASSERT the repaired behaviour
 REPAIRED = {"dict_boolean_v1_w2": "ok", "dict_boolean_v1_w3": "ok", "dict_boolean_v1": "ok", "v1_rle_boolean": "ok",
-            "v1_bit_packed_levels": "NotImplementedError"}
+            "v1_bit_packed_levels": "NotImplementedError",
+            # row mask through read_col, repaired by e953da1 (nan == None for the object column)
+            "mask_v1_page_without_selection": "ok", "mask_v1_nulls_shift_mask_cursor": "ok", "mask_v1_nulls_before_selection": "ok",
+            "mask_v1_multipage_every_page_selected_no_nulls": "ok", "mask_v2_multipage": "IndexError"}
 FAILED = []
 
 
@@ -213,7 +216,8 @@ def mask_cases():
         try:
             got = ParquetFile(fn).to_pandas(row_filter=mask)
             col = df.columns[0]
-            return {"expected": list(df[col][mask]), "read": list(got[col])}
+            norm = lambda xs: [None if (x is None or x is pd.NA or (isinstance(x, float) and x != x)) else x for x in xs]
+            return {"expected": norm(df[col][mask]), "read": norm(got[col])}
         finally:
             os.unlink(fn); os.rmdir(d)
     out["mask_v1_page_without_selection"] = lambda: roundtrip(pd.DataFrame({"s": ["s%02d" % k for k in range(24)]}), np.arange(24) >= 20)
